@@ -571,8 +571,11 @@ class _Interpolator(object):
             object is a reference to it.
         """
         if self.input_type == 'meshgrid':
-            # Given a meshgrid, the evaluation will be on a ragged array.
-            x = np.asarray(x, dtype=object)
+            # Given a meshgrid, the evaluation will be on a ragged sequence of
+            # arrays. Do not use `np.asarray(x, dtype=object)`: it fails if
+            # the vectors agree in their leading dimension only, e.g., for
+            # shapes (1, 1) and (1, n).
+            x = tuple(np.asarray(xi) for xi in x)
         else:
             x = np.asarray(x)
 
